@@ -303,7 +303,7 @@ def prove(run):
                 for two_site in (False, True):
                     if run.tier == "quick" and n_nodes >= 4 and (two_site or flavour != "spinqn"):
                         continue      # quick: four-node trees only for the one-site scheme on two-level sites (small local spaces)
-                    cases.append((seed, n_nodes, flavour, two_site, max_dim, 20 if run.tier == "quick" else 400))
+                    cases.append((seed, n_nodes, flavour, two_site, max_dim, 20 if run.tier == "quick" else 180))
     leds = pool_cases(run, worker, cases)
     ncalls = sum(l.extra.get("ncalls", 0) for l in leds)
     skipped = [c for l in leds for c in l.extra.get("skipped", [])]
